@@ -39,7 +39,7 @@ def worker(slot):
 open(OUT, 'w').close()
 ts = [threading.Thread(target=worker, args=(i,)) for i in range(NW)]
 [t.start() for t in ts]; [t.join() for t in ts]
-EXPECTED = {'c05k': 'caught by C07, not by C05 (recorded)', 'c09d': 'fact-only by decision (recorded)', 'c13o': 'caught by C11; percentiles are not C13\'s clause (recorded)'}
+EXPECTED = {'c15p': 'outside the quantified domain (recorded)', 'c05k': 'caught by C07, not by C05 (recorded)', 'c09d': 'fact-only by decision (recorded)', 'c13o': 'caught by C11; percentiles are not C13\'s clause (recorded)'}
 bad = [r for r in res if r[0] not in EXPECTED and ( (r[2] and r[3] == 'failing-input') or (not r[2] and r[3] != 'failing-input'))]
 print(len(res), 'seeds re-run;', len(bad), 'to look at:')
 for r in sorted(bad): print('  ', *r)
